@@ -275,3 +275,21 @@ func malformed(valid string) string {
 	}
 	return strings.Join(f, "/")
 }
+
+// zoomFieldOut: with probability 1/40 one extended ID of the list gets a zoom field outside 0..35 (36 or -1). Only used for the
+// operations that check the zoom fields of their IDs themselves (vertex/centre query, the two "to quadkey" conversions).
+func zoomFieldOut(idl []string) []string {
+	if len(idl) == 0 || rng.Intn(40) != 0 {
+		return idl
+	}
+	i := rng.Intn(len(idl))
+	f := strings.Split(idl[i], "/")
+	if len(f) != 5 {
+		return idl
+	}
+	k := []int{0, 3}[rng.Intn(2)]
+	f[k] = []string{"36", "-1", "40"}[rng.Intn(3)]
+	out := append([]string(nil), idl...)
+	out[i] = strings.Join(f, "/")
+	return out
+}
